@@ -30,6 +30,7 @@ func groups(tier string) []group {
 		gs = append(gs, group{fmt.Sprintf("shape/%d-%d", i, j), func(tier string, y func(*scen) bool) { enumShapes(tier, sub, y) }})
 	}
 	gs = append(gs, group{"unknown", enumUnknown})
+	gs = append(gs, group{"after-failure", enumAfterFailure})
 	gs = append(gs, group{"keys", enumKeys})
 	gs = append(gs, group{"jsconv", enumJSConv})
 	for m := 0; m < 256; m += 32 {
@@ -671,6 +672,41 @@ func enumBufSweep(tier string, part, parts int, yield func(*scen) bool) {
 			}
 			c.note = fmt.Sprintf("capacity block %d", k0)
 			if !yield(&c) {
+				return
+			}
+		}
+	}
+}
+
+
+// enumAfterFailure: a well-formed message converted right after a malformed one by the same converter (pooled
+// protocol objects, requires bitmaps, buffers): every truncation of one encoded message and the same message with
+// each byte position's type code / length damaged, each followed by two well-formed messages.
+func enumAfterFailure(tier string, yield func(*scen) bool) {
+	inner := tbin.StructS(tbin.SField{ID: 1, Name: "x", S: tbin.Sc(tbin.I32), Req: 1}, tbin.SField{ID: 3, Name: "y", S: tbin.Sc(tbin.STRING), Req: 2})
+	root := tbin.StructS(tbin.SField{ID: 2, Name: "a", S: tbin.Sc(tbin.I32), Req: 1}, tbin.SField{ID: 4, Name: "b", S: tbin.Sc(tbin.STRING), Req: 2}, tbin.SField{ID: 300, Name: "c", S: inner},
+		tbin.SField{ID: 6, Name: "l", S: tbin.ListS(inner), Req: 2}, tbin.SField{ID: 7, Name: "m", S: tbin.MapS(tbin.Sc(tbin.STRING), tbin.Sc(tbin.I64))})
+	prog := jt.NewProg("after-failure", root)
+	g := &tbin.Gen{}
+	full := tbin.Bytes(g.Build(root, 2))
+	var primes [][]byte
+	for n := 0; n < len(full); n++ {
+		primes = append(primes, append([]byte{}, full[:n]...))
+	}
+	for i := range full {
+		d := append([]byte{}, full...)
+		d[i] = 0xff
+		primes = append(primes, d)
+	}
+	var follows []*tbin.Val
+	for n := 1; n <= 2; n++ {
+		g := &tbin.Gen{}
+		follows = append(follows, g.Build(root, n))
+	}
+	for _, pr := range primes {
+		for fi, v := range follows {
+			sc := &scen{op: "after-failure", trigger: fmt.Sprintf("follow%d", fi), prog: prog, optName: "none", val: v, shape: root, prime: pr, ks: []int{0, 3}}
+			if !yield(sc) {
 				return
 			}
 		}
